@@ -1,6 +1,6 @@
 /-
   C18 — replace() applies exactly the requested nested changes and nothing else.
-  Theorems about `SpVerif.Model.Replace` (mirrors replace.py and utils.unflatten / unflatten_split).
+  Theorems about `SpVerif.Model.Replace` (mirrors replace.py — including repairs 4cae786, bb5a5f4 — and utils.unflatten / unflatten_split).
 -/
 import SpVerif.Model.Replace
 namespace SpVerif.C18
@@ -140,7 +140,7 @@ def FieldStep (f : Fld) (c : Option Val) (v' : Val) : Prop :=
   | Option.none => v' = f.val
   | some x => f.init = true ∧
       match f.val, x with
-      | .inst cl sub, .dict fc => hasReserved fc = false ∧ replaceKw (.inst cl sub) fc = .ok v'
+      | .inst cl sub, .dict fc => replaceKw (.inst cl sub) fc = .ok v'
       | _, _ => v' = x
 
 theorem replaceFields_spec (fs : List Fld) : ∀ (ch : Dict) (fs' : List Fld) (lo : Dict),
@@ -197,23 +197,18 @@ theorem replaceFields_spec (fs : List Fld) : ∀ (ch : Dict) (fs' : List Fld) (l
             exact ⟨v', by simp [getFld, Fld.name, hk, h1], h2⟩
         split at h
         · rename_i c sub fc
-          cases hres : hasReserved fc with
-          | true => rw [hres] at h; simp at h
-          | false =>
-            rw [hres] at h
-            simp only [Bool.false_eq_true, if_false] at h
-            cases hrk : replaceKw (.inst c sub) fc with
-            | error e => rw [hrk] at h; simp at h
-            | ok vn =>
-              rw [hrk] at h
-              simp only at h
-              cases hr : replaceFields rest (ddel ch n) with
-              | error e => rw [hr] at h; simp at h
-              | ok pr =>
-                obtain ⟨r, lo'⟩ := pr
-                rw [hr] at h
-                simp only [Except.ok.injEq, Prod.mk.injEq] at h
-                exact key vn r lo' hr h.1.symm (by simp [FieldStep, Fld.init, Fld.val, hres, hrk])
+          cases hrk : replaceKw (.inst c sub) fc with
+          | error e => rw [hrk] at h; simp at h
+          | ok vn =>
+            rw [hrk] at h
+            simp only at h
+            cases hr : replaceFields rest (ddel ch n) with
+            | error e => rw [hr] at h; simp at h
+            | ok pr =>
+              obtain ⟨r, lo'⟩ := pr
+              rw [hr] at h
+              simp only [Except.ok.injEq, Prod.mk.injEq] at h
+              exact key vn r lo' hr h.1.symm (by simp [FieldStep, Fld.init, Fld.val, hrk])
         · rename_i hno
           cases hr : replaceFields rest (ddel ch n) with
           | error e => rw [hr] at h; simp at h
@@ -365,7 +360,7 @@ theorem c18_addressed_partial (p : List Str) : ∀ (obj : Val) (ch : Dict) (r v 
             rw [hsub] at hm
             simp only at hm
             rw [← hsub] at hm
-            exact ih f.val fc v' v old hm.2 hl hp hs
+            exact ih f.val fc v' v old hm hl hp hs
           | _ => simp at hl
 
 example : storedAsIs (.int 1) (.dict []) = true := rfl
@@ -446,7 +441,7 @@ theorem c18_frame (p : List Str) : ∀ (obj : Val) (ch : Dict) (r old : Val),
             rw [hsub] at hm
             simp only at hm
             rw [← hsub] at hm
-            exact ih f.val fc v' old hm.2 hun hp hin.2
+            exact ih f.val fc v' old hm hun hp hin.2
         | _ => simp at hun
 
 example : untouched [(['a', '.', 'b'], .int 1)] [['a'], ['c']] = true := rfl
@@ -520,25 +515,20 @@ theorem replaceFields_cons_inv (n : Str) (i : Bool) (v d : Val) (rest : List Fld
       simp only [Bool.not_true, Bool.false_eq_true, if_false] at h
       split at h
       · rename_i c sub fc
-        cases hres : hasReserved fc with
-        | true => rw [hres] at h; simp at h
-        | false =>
-          rw [hres] at h
-          simp only [Bool.false_eq_true, if_false] at h
-          cases hrk : replaceKw (.inst c sub) fc with
-          | error e => rw [hrk] at h; simp at h
-          | ok vn =>
-            rw [hrk] at h
-            simp only at h
-            cases hr : replaceFields rest (ddel ch n) with
-            | error e => rw [hr] at h; simp at h
-            | ok pr =>
-              obtain ⟨r, lo'⟩ := pr
-              rw [hr] at h
-              simp only [Except.ok.injEq, Prod.mk.injEq] at h
-              obtain ⟨h1, h2⟩ := h
-              subst h1 h2
-              exact ⟨vn, r, _, hr, rfl, Or.inr ⟨rfl, rfl, _, rfl⟩⟩
+        cases hrk : replaceKw (.inst c sub) fc with
+        | error e => rw [hrk] at h; simp at h
+        | ok vn =>
+          rw [hrk] at h
+          simp only at h
+          cases hr : replaceFields rest (ddel ch n) with
+          | error e => rw [hr] at h; simp at h
+          | ok pr =>
+            obtain ⟨r, lo'⟩ := pr
+            rw [hr] at h
+            simp only [Except.ok.injEq, Prod.mk.injEq] at h
+            obtain ⟨h1, h2⟩ := h
+            subst h1 h2
+            exact ⟨vn, r, _, hr, rfl, Or.inr ⟨rfl, rfl, _, rfl⟩⟩
       · cases hr : replaceFields rest (ddel ch n) with
         | error e => rw [hr] at h; simp at h
         | ok pr =>
@@ -638,7 +628,7 @@ theorem c18_nested_error_propagates (cls : Str) (fs : List Fld) (ch n fc : Dict)
   obtain ⟨v', _, hstep⟩ := replaceFields_spec fs n fs' [] hr k f hf
   rw [hk] at hstep
   simp only [FieldStep, hv] at hstep
-  exact hbad v' hstep.2.2
+  exact hbad v' hstep.2
 
 /-! ### reference: `dataclasses.replace` level by level -/
 
@@ -720,7 +710,7 @@ theorem c18_reference_single (p : List Str) : ∀ (obj r old v : Val), p ≠ [] 
         simp only at hm
         rw [← hsub] at hm
         have hd' : DotFree (k2 :: r2) := fun s hs' => hd s (by simp only [List.mem_cons] at hs' ⊢; right; exact hs')
-        have := ih f.val v' old v (by simp) hd' hm.2 hp hs
+        have := ih f.val v' old v (by simp) hd' hm hp hs
         simp [refEdit, getField_eq, hf, this, hset]
 
 example : refEdit (.inst ['T'] [.mk ['m'] true (.inst ['M'] [.mk ['v'] true (.int 0) .none]) .none]) [['m'], ['v']] (.int 3)
@@ -764,7 +754,8 @@ theorem sgFields_single (tbl : SgTable) (recur : Val → Dict → Out Val) (cls 
       have hsel : dget [(n0, Val.str key)] n0 = some (.str key) := by simp [dget]
       have hdel : ddel [(n0, Val.str key)] n0 = [] := by simp [ddel]
       rw [sgFields]
-      simp only [hsel, hdc, pickMember, hsg, halt, hdel, sgFields_nil_sel tbl recur cls rest hrest]
+      have hss : selSplit (Val.str key) = (Val.str key, []) := rfl
+      simp only [hsel, hdc, hss, pickMember, hsg, halt, hdel, sgFields_nil_sel tbl recur cls rest hrest]
       simp
     · simp only [hnk, if_false] at hf
       obtain ⟨fs', h1, h2⟩ := ih hrest hf
@@ -819,33 +810,267 @@ theorem c18_subgroups_select (tbl : SgTable) (fuel : Nat) (cls : Str) (fs : List
 theorem c18_subgroups_empty (tbl : SgTable) (fuel : Nat) (obj : Val) : replaceSg tbl fuel obj [] = .ok obj := by
   cases fuel <;> rfl
 
-/-- **Full statement for nested selections**: selecting the member `a.b` leaves every sibling `a.sib` alone. -/
-def SubgroupsFrameFull : Prop :=
-  ∀ (tbl : SgTable) (fuel : Nat) (obj r x : Val) (a b sib : Str), sib ≠ b →
-    replaceSg tbl fuel obj [(joinDot [a, b], x)] = .ok r → getPath r [a, sib] = getPath obj [a, sib]
+/-! #### nested selections: frame and sibling theorems (after repair bb5a5f4) -/
 
-/-- **Witness (open finding C18-subgroups-nested-reset)**: `c.n = AB(s=A(5), k=9)`, selection `{"n.s": "b"}`:
-    `c.n` is rebuilt from its `default_factory`, so the unselected sibling `n.k` becomes `0`. -/
-theorem c18_subgroups_witness : ¬ SubgroupsFrameFull := by
-  intro h
-  let A5 : Val := .inst ['A'] [.mk ['a'] true (.int 5) .none]
-  let B0 : Val := .inst ['B'] [.mk ['b'] true (.str ['x']) .none]
-  let AB0 : Val := .inst ['A', 'B'] [.mk ['s'] true (.inst ['A'] [.mk ['a'] true (.int 0) .none]) .none,
-                                     .mk ['k'] true (.int 0) .none]
-  let obj : Val := .inst ['C'] [.mk ['n'] true (.inst ['A', 'B'] [.mk ['s'] true A5 .none, .mk ['k'] true (.int 9) .none]) .none]
-  let tbl : SgTable := [((['C'], ['n']), { hasDc := true, isOpt := false, sg := Option.none, fac := some AB0 }),
-                        ((['A', 'B'], ['s']), { hasDc := true, isOpt := false, sg := some [(['b'], B0)], fac := Option.none })]
-  have := h tbl 3 obj
-    (.inst ['C'] [.mk ['n'] true (.inst ['A', 'B'] [.mk ['s'] true B0 .none, .mk ['k'] true (.int 0) .none]) .none])
-    (.str ['b']) ['n'] ['s'] ['k'] (by decide) rfl
-  simp [getPath, getField, obj] at this
+theorem dget_none_ddel (d : Dict) (k n : Str) (h : dget d k = Option.none) : dget (ddel d n) k = Option.none := by
+  induction d with
+  | nil => rfl
+  | cons kv r ih =>
+    obtain ⟨a, b⟩ := kv
+    simp only [dget] at h
+    by_cases hak : a = k
+    · simp [hak] at h
+    · simp only [hak, if_false] at h
+      simp only [ddel]
+      by_cases han : a = n
+      · simp [han, h]
+      · simp [han, dget, hak, ih h]
 
-/-- fields named like `replace`'s own parameters are outside the modelled fragment (open finding C18-reserved-kwarg):
-    the model reports them instead of guessing -/
-theorem c18_reserved_unmodelled (n : Str) (d : Val) (c : Str) (sub : List Fld) (rest : List Fld) (ch fc : Dict)
-    (hg : dget ch n = some (.dict fc)) (hr : hasReserved fc = true) :
-    replaceFields (.mk n true (.inst c sub) d :: rest) ch = .error (.unmodelled "reserved-keyword".toList) := by
-  rw [replaceFields]; simp [hg, hr]
+/-- one iteration of the field loop of `replace_subgroups` -/
+theorem sgFields_cons_inv (tbl : SgTable) (recur : Val → Dict → Out Val) (cls n : Str) (i : Bool) (v d : Val)
+    (rest : List Fld) (sel : Dict) (fs' : List Fld)
+    (h : sgFields tbl recur cls (.mk n i v d :: rest) sel = .ok fs') :
+    i = true ∧ ∃ nv r sel', sgFields tbl recur cls rest sel' = .ok r ∧ fs' = .mk n true nv d :: r ∧
+      ((sel' = sel ∧ dget sel n = Option.none ∧ nv = v) ∨
+       (sel' = ddel sel n ∧ ∃ s, dget sel n = some s ∧ (sgMeta tbl cls n).hasDc = true ∧
+          ∃ fv, pickMember (sgMeta tbl cls n) v (selSplit s).1 = .ok fv ∧
+            ((selSplit s).2.isEmpty = true ∧ nv = fv ∨ (selSplit s).2.isEmpty = false ∧ recur fv (selSplit s).2 = .ok nv))) := by
+  rw [sgFields] at h
+  cases i with
+  | false => simp at h
+  | true =>
+    refine ⟨rfl, ?_⟩
+    simp only [Bool.not_true, Bool.false_eq_true, if_false] at h
+    cases hg : dget sel n with
+    | none =>
+      rw [hg] at h
+      simp only at h
+      cases hr : sgFields tbl recur cls rest sel with
+      | error e => rw [hr] at h; simp at h
+      | ok r =>
+        rw [hr] at h
+        simp only [Except.ok.injEq] at h
+        exact ⟨v, r, sel, hr, h.symm, Or.inl ⟨rfl, rfl, rfl⟩⟩
+    | some s =>
+      rw [hg] at h
+      simp only at h
+      cases hdc : (sgMeta tbl cls n).hasDc with
+      | false => rw [hdc] at h; simp at h
+      | true =>
+        rw [hdc] at h
+        simp only [Bool.not_true, Bool.false_eq_true, if_false] at h
+        cases hp : pickMember (sgMeta tbl cls n) v (selSplit s).1 with
+        | error e => rw [hp] at h; simp at h
+        | ok fv =>
+          rw [hp] at h
+          simp only at h
+          cases hemp : (selSplit s).2.isEmpty with
+          | true =>
+            rw [hemp] at h
+            simp only [if_true] at h
+            cases hr : sgFields tbl recur cls rest (ddel sel n) with
+            | error e => rw [hr] at h; simp at h
+            | ok r =>
+              rw [hr] at h
+              simp only [Except.ok.injEq] at h
+              exact ⟨fv, r, _, hr, h.symm, Or.inr ⟨rfl, s, rfl, rfl, fv, hp, Or.inl ⟨hemp, rfl⟩⟩⟩
+          | false =>
+            rw [hemp] at h
+            simp only [Bool.false_eq_true, if_false] at h
+            cases hrec : recur fv (selSplit s).2 with
+            | error e => rw [hrec] at h; simp at h
+            | ok nv =>
+              rw [hrec] at h
+              simp only at h
+              cases hr : sgFields tbl recur cls rest (ddel sel n) with
+              | error e => rw [hr] at h; simp at h
+              | ok r =>
+                rw [hr] at h
+                simp only [Except.ok.injEq] at h
+                exact ⟨nv, r, _, hr, h.symm, Or.inr ⟨rfl, s, rfl, rfl, fv, hp, Or.inr ⟨hemp, hrec⟩⟩⟩
+
+/-- a field whose name is not selected is left exactly as it was -/
+theorem sgFields_frame (tbl : SgTable) (recur : Val → Dict → Out Val) (cls : Str) (fs : List Fld) :
+    ∀ (sel : Dict) (fs' : List Fld) (k : Str), sgFields tbl recur cls fs sel = .ok fs' →
+      dget sel k = Option.none → getFld fs' k = getFld fs k := by
+  induction fs with
+  | nil => intro sel fs' k h _; simp [sgFields] at h; simp [h]
+  | cons f rest ih =>
+    obtain ⟨n, i, v, d⟩ := f
+    intro sel fs' k h hk
+    obtain ⟨rfl, nv, r, sel', hr, rfl, hc⟩ := sgFields_cons_inv tbl recur cls n i v d rest sel fs' h
+    rcases hc with ⟨rfl, _, rfl⟩ | ⟨rfl, s, hs, _⟩
+    · simp only [getFld]; rw [ih _ r k hr hk]
+    · have hnk : n ≠ k := by intro e; subst e; rw [hk] at hs; cases hs
+      simp only [getFld, hnk, if_false]
+      exact ih _ r k hr (dget_none_ddel sel k n hk)
+
+/-- `replace_subgroups` only ever succeeds on classes without `init=False` fields (replace.py:129) -/
+theorem sgFields_allInit (tbl : SgTable) (recur : Val → Dict → Out Val) (cls : Str) (fs : List Fld) :
+    ∀ (sel : Dict) (fs' : List Fld), sgFields tbl recur cls fs sel = .ok fs' → ∀ f ∈ fs', f.init = true := by
+  induction fs with
+  | nil => intro sel fs' h; simp [sgFields] at h; subst h; intro f hf; cases hf
+  | cons f rest ih =>
+    obtain ⟨n, i, v, d⟩ := f
+    intro sel fs' h
+    obtain ⟨rfl, nv, r, sel', hr, rfl, _⟩ := sgFields_cons_inv tbl recur cls n i v d rest sel fs' h
+    intro g hg
+    simp only [List.mem_cons] at hg
+    rcases hg with rfl | hg
+    · rfl
+    · exact ih sel' r hr g hg
+
+/-- what happens to the (first) field named `k` when it is selected -/
+theorem sgFields_spec (tbl : SgTable) (recur : Val → Dict → Out Val) (cls : Str) (fs : List Fld) :
+    ∀ (sel : Dict) (fs' : List Fld) (k : Str) (f : Fld) (s : Val), sgFields tbl recur cls fs sel = .ok fs' →
+      getFld fs k = some f → dget sel k = some s →
+      ∃ nv fv, getFld fs' k = some (.mk f.name true nv f.dflt) ∧
+        pickMember (sgMeta tbl cls k) f.val (selSplit s).1 = .ok fv ∧
+        ((selSplit s).2.isEmpty = true ∧ nv = fv ∨ (selSplit s).2.isEmpty = false ∧ recur fv (selSplit s).2 = .ok nv) := by
+  induction fs with
+  | nil => intro sel fs' k f s _ hf; simp [getFld] at hf
+  | cons f0 rest ih =>
+    obtain ⟨n, i, v, d⟩ := f0
+    intro sel fs' k f s h hf hs
+    obtain ⟨rfl, nv, r, sel', hr, rfl, hc⟩ := sgFields_cons_inv tbl recur cls n i v d rest sel fs' h
+    simp only [getFld] at hf
+    by_cases hnk : n = k
+    · subst hnk
+      simp only [if_true, Option.some.injEq] at hf
+      subst hf
+      rcases hc with ⟨_, hn, _⟩ | ⟨_, s', hs', _, fv, hp, hrec⟩
+      · rw [hn] at hs; cases hs
+      · rw [hs] at hs'
+        cases hs'
+        exact ⟨nv, fv, by simp [getFld, Fld.name, Fld.dflt], hp, hrec⟩
+    · simp only [hnk, if_false] at hf
+      have hsel' : dget sel' k = some s := by
+        rcases hc with ⟨rfl, _, _⟩ | ⟨rfl, _⟩
+        · exact hs
+        · rw [dget_ddel_ne sel k n hnk]; exact hs
+      obtain ⟨nv', fv, h1, h2, h3⟩ := ih sel' r k f s hr hf hsel'
+      exact ⟨nv', fv, by simp [getFld, hnk, h1], h2, h3⟩
+
+theorem replaceSg_inv (tbl : SgTable) (fuel : Nat) (obj : Val) (s : Str × Val) (sel : Dict) (r : Val)
+    (h : replaceSg tbl fuel obj (s :: sel) = .ok r) :
+    ∃ fuel' cls fs fs', fuel = fuel' + 1 ∧ obj = .inst cls fs ∧
+      sgFields tbl (replaceSg tbl fuel') cls fs (unflattenSel (s :: sel)) = .ok fs' ∧ r = .inst cls fs' := by
+  cases fuel with
+  | zero => simp [replaceSg] at h
+  | succ fuel' =>
+    cases obj with
+    | inst cls fs =>
+      simp only [replaceSg] at h
+      cases hf : sgFields tbl (replaceSg tbl fuel') cls fs (unflattenSel (s :: sel)) with
+      | error e => rw [hf] at h; simp at h
+      | ok fs' =>
+        rw [hf] at h
+        simp only [Except.ok.injEq] at h
+        rw [rebuild_allInit fs' (sgFields_allInit tbl _ cls fs _ fs' hf)] at h
+        exact ⟨fuel', cls, fs, fs', rfl, rfl, hf, h.symm⟩
+    | _ => simp [replaceSg] at h
+
+/-- **Frame for replace_subgroups.** Every member that no selection names (after the dotted keys have been
+    grouped by their first component) is, in the result, exactly what it was — for selections in any form. -/
+theorem c18_subgroups_frame (tbl : SgTable) (fuel : Nat) (obj r : Val) (sel : Dict) (k : Str)
+    (h : replaceSg tbl fuel obj sel = .ok r) (hk : dget (unflattenSel sel) k = Option.none) :
+    getPath r [k] = getPath obj [k] := by
+  cases sel with
+  | nil => rw [c18_subgroups_empty] at h; cases h; rfl
+  | cons s sel' =>
+    obtain ⟨fuel', cls, fs, fs', rfl, rfl, hf, rfl⟩ := replaceSg_inv tbl fuel obj s sel' r h
+    simp only [getPath_cons_inst]
+    rw [sgFields_frame tbl _ cls fs _ fs' k hf hk]
+
+theorem unflattenSel_dotted2 (a b : Str) (x : Val) (ha : '.' ∉ a) (hb : '.' ∉ b) :
+    unflattenSel [(joinDot [a, b], x)] = [(a, .dict [(b, x)])] := by
+  have hs : splitDot (joinDot [a, b]) = [a, b] :=
+    splitOnChar_join '.' [a, b] (by simp) (by intro s hs; simp at hs; rcases hs with rfl | rfl <;> assumption)
+  simp [unflattenSel, selTops, selStep, hs, dset, dget, joinWith]
+
+/-- **Nested selections keep every sibling** (full statement; it was refuted before repair bb5a5f4).
+    Selecting only the member `a.b` below the dataclass-valued field `a` — in dotted form — leaves every
+    other member `a.sib` of the current `obj.a` exactly as it was. -/
+theorem c18_subgroups_siblings_kept (tbl : SgTable) (fuel : Nat) (obj r x : Val) (a b sib : Str)
+    (c2 : Str) (fs2 : List Fld)
+    (ha : '.' ∉ a) (hb : '.' ∉ b) (hbk : b ≠ keyword) (hsib : sib ≠ b)
+    (hcur : getPath obj [a] = some (.inst c2 fs2))
+    (h : replaceSg tbl fuel obj [(joinDot [a, b], x)] = .ok r) :
+    getPath r [a, sib] = getPath obj [a, sib] := by
+  obtain ⟨fuel', cls, fs, fs', rfl, rfl, hf, rfl⟩ := replaceSg_inv tbl fuel obj _ [] r h
+  rw [unflattenSel_dotted2 a b x ha hb] at hf
+  simp only [getPath_cons_inst] at hcur ⊢
+  cases hfa : getFld fs a with
+  | none => rw [hfa] at hcur; simp at hcur
+  | some f =>
+    rw [hfa] at hcur
+    simp only [Option.bind_some, getPath, Option.some.injEq] at hcur
+    obtain ⟨nv, fv, hget, hpick, hrec⟩ := sgFields_spec tbl _ cls fs _ fs' a f (.dict [(b, x)]) hf hfa (by simp [dget])
+    rw [hget]
+    simp only [Option.bind_some, Fld.val]
+    have hkb : keyword ≠ b := fun e => hbk e.symm
+    have hval : (selSplit (.dict [(b, x)])).1 = .none := by simp [selSplit, dget, hbk]
+    have hchild : (selSplit (.dict [(b, x)])).2 = [(b, x)] := by simp [selSplit, ddel, hbk]
+    rw [hval] at hpick
+    rw [hchild] at hrec
+    simp only [List.isEmpty_cons, Bool.false_eq_true, false_and, true_and, false_or] at hrec
+    -- the member picked for `a` is the current instance, or `None` for an Optional field (then the call fails below)
+    rw [hcur] at hpick
+    have hfv : fv = .inst c2 fs2 ∨ fv = .none := by
+      unfold pickMember at hpick
+      cases hsgm : (sgMeta tbl cls a).sg with
+      | none =>
+        rw [hsgm] at hpick
+        cases hopt : (sgMeta tbl cls a).isOpt <;> rw [hopt] at hpick <;> simp at hpick <;>
+          first | (left; exact hpick.symm) | (right; exact hpick.symm)
+      | some l =>
+        rw [hsgm] at hpick
+        cases l with
+        | nil =>
+          cases hopt : (sgMeta tbl cls a).isOpt <;> rw [hopt] at hpick <;> simp at hpick <;>
+            first | (left; exact hpick.symm) | (right; exact hpick.symm)
+        | cons a0 as => simp at hpick
+    rcases hfv with rfl | rfl
+    · cases fuel' with
+      | zero => simp [replaceSg] at hrec
+      | succ f2 =>
+        obtain ⟨f3, c3, fs3, fs3', _, hobj, hf3, rfl⟩ := replaceSg_inv tbl (f2 + 1) _ _ [] nv hrec
+        cases hobj
+        rw [unflattenSel_single b x hb] at hf3
+        have hfr := sgFields_frame tbl _ _ _ _ fs3' sib hf3 (by simp [dget, hsib.symm])
+        show getPath _ [sib] = getPath f.val [sib]
+        rw [hcur]
+        simp only [getPath_cons_inst, hfr]
+    · cases fuel' <;> simp [replaceSg] at hrec
+
+/-- hypotheses of `c18_subgroups_siblings_kept`, and the input that refuted the statement before the repair:
+    `c.n = AB(s=A(5), k=9)`, selection `{"n.s": "b"}` now keeps `n.k == 9`. -/
+example :
+    let A5 : Val := .inst ['A'] [.mk ['a'] true (.int 5) .none]
+    let B0 : Val := .inst ['B'] [.mk ['b'] true (.str ['x']) .none]
+    let AB0 : Val := .inst ['A', 'B'] [.mk ['s'] true (.inst ['A'] [.mk ['a'] true (.int 0) .none]) .none,
+                                       .mk ['k'] true (.int 0) .none]
+    let obj : Val := .inst ['C'] [.mk ['n'] true (.inst ['A', 'B'] [.mk ['s'] true A5 .none, .mk ['k'] true (.int 9) .none]) .none]
+    let tbl : SgTable := [((['C'], ['n']), { hasDc := true, isOpt := false, sg := Option.none, fac := some AB0 }),
+                          ((['A', 'B'], ['s']), { hasDc := true, isOpt := false, sg := some [(['b'], B0)], fac := Option.none })]
+    replaceSg tbl 3 obj [(joinDot [['n'], ['s']], .str ['b'])] =
+      .ok (.inst ['C'] [.mk ['n'] true (.inst ['A', 'B'] [.mk ['s'] true B0 .none, .mk ['k'] true (.int 9) .none]) .none]) := rfl
+
+/-- **Nested fields may be named like `replace`'s own parameters** (full; the model had to report these as
+    unmodelled before repair 4cae786): `replace(p, {"m.obj": v})` sets `p.m.obj`. -/
+theorem c18_reserved_names_addressed (obj r v old : Val) (m : Str) (hm : '.' ∉ m)
+    (h : replaceKw obj [(joinDot [m, "obj".toList], v)] = .ok r)
+    (hp : getPath obj [m, "obj".toList] = some old) (hs : storedAsIs old v = true) :
+    getPath r [m, "obj".toList] = some v :=
+  c18_addressed_dotted obj r v old _ (by simp)
+    (by intro s hs'; simp at hs'; rcases hs' with rfl | rfl; exact hm; decide) h hp hs
+
+example : replaceKw (.inst ['P'] [.mk ['m'] true (.inst ['R'] [.mk ['o', 'b', 'j'] true (.int 1) .none,
+                                                                  .mk ['v'] true (.int 2) .none]) .none])
+    [(['m', '.', 'o', 'b', 'j'], .int 5), (['m', '.', 'v'], .int 6)] =
+    .ok (.inst ['P'] [.mk ['m'] true (.inst ['R'] [.mk ['o', 'b', 'j'] true (.int 5) .none,
+                                                      .mk ['v'] true (.int 6) .none]) .none]) := rfl
+example : reservedKey ['o', 'b', 'j'] = true := by decide
 
 /-! ### non-vacuity: concrete inputs satisfying the hypotheses of the theorems above -/
 
